@@ -1641,10 +1641,13 @@ impl Gen {
 
     fn is_call_form(e: &Sx) -> bool {
         match e {
+            // special forms and the bundled derived forms are not calls: their keyword is not a
+            // value that could be handed to apply, and their parts are not operands
             Sx::List(v) if !v.is_empty() => !matches!(
                 v[0].as_sym(),
-                Some("set!") | Some("if") | Some("quote") | Some("lambda") | Some("define")
-            ),
+                Some("set!") | Some("if") | Some("quote") | Some("lambda") | Some("define") | Some("begin") | Some("cond")
+                    | Some("and") | Some("or") | Some("when") | Some("unless") | Some("let") | Some("let*") | Some("case")
+            ) && !v[0].as_sym().map(|h| h.starts_with("txm")).unwrap_or(false),
             _ => false,
         }
     }
